@@ -499,6 +499,17 @@ def reader_execs(rng, thorough):
             hinted = rng.random() < 0.6
             ex.append("BUFFILE %s %s %d %d" % (rng.choice("rad"), path, 1 if hinted else 0, rng.choice([0, 1, 31, 4096, 4097, 1 << 20]) if hinted else 0))
         execs.append(ex)
+    # sources whose size fstat() does not know (a FIFO fed by another process): every size around the reader's growth steps,
+    # with and without hints
+    fx = ["RESET"]
+    for n in [0, 1, 31, 32, 33, 63, 64, 65, 70, 100, 120, 131, 132, 133, 1000, 3000, 4095, 4096, 4097, 8192, 20000, 70000]:
+        hinted = rng.random() < 0.4
+        fx.append("FIFOREAD %d %d %d %d" % (rng.randrange(2, 1000), n, 1 if hinted else 0, rng.choice([0, 1, n, n + 1, 2 * n, 4096]) if hinted else 0))
+        if len(fx) > 12:
+            execs.append(fx)
+            fx = ["RESET"]
+    if len(fx) > 1:
+        execs.append(fx)
     m = 1 << 20
     big = []
     for size in [129 * m + 10000] + ([128 * m + 1, 257 * m + 3] if thorough else []):
